@@ -112,6 +112,15 @@ func BFS(r *Result, cfg BFSConfig) {
 	}
 	pool := newPool(cfg)
 	defer pool.close()
+	// VERIF_BFS_DUMP=<file>: one line per explored history (history, key digest, number of enabled
+	// events) in exploration order; two runs of a deterministic harness produce identical files
+	var dump *os.File
+	if p := os.Getenv("VERIF_BFS_DUMP"); p != "" {
+		dump, _ = os.OpenFile(p, os.O_CREATE|os.O_APPEND|os.O_WRONLY, 0644)
+		if dump != nil {
+			defer dump.Close()
+		}
+	}
 
 	root := pool.evalOne(nil)
 	absorb(r, nil, root)
@@ -144,6 +153,9 @@ func BFS(r *Result, cfg BFSConfig) {
 			}
 			r.Add("transitions", 1)
 			absorb(r, jobs[i], *o)
+			if dump != nil {
+				fmt.Fprintf(dump, "%s\t%s\t%d\t%s\n", strings.Join(jobs[i], " | "), Hash(o.Key), len(o.Enabled), o.Nondet)
+			}
 			if o.Died {
 				if cfg.DiedFingerprint != nil {
 					if v := cfg.DiedFingerprint(jobs[i], o.DiedMsg); v != nil {
